@@ -31,6 +31,23 @@ def write_violation(pid, label, obl, results, found=None):
     return path
 
 
+def write_kani_violation(pid, function, fd):
+    """A violation found by the bounded Kani companion and replayed on the real code (vx/kani.py)."""
+    os.makedirs(RDIR, exist_ok=True)
+    path = os.path.join(RDIR, "%s-kani-%s.json" % (pid, fd["harness"]))
+    doc = dict(property=pid, obligation="kani/%s" % fd["harness"], kind="bounded-kani",
+               statement=("the real function %s, on every input of at most %d bytes, %s" % (
+                   function, fd["bound_bytes"], "returns without panic / overflow / out-of-bounds access" if fd["kind"] == "total"
+                   else "agrees with the executable oracle transcribed from vx/specs/parser.rs")),
+               verifier="kani 0.68 / cbmc (bounded), counterexample replayed natively on the real code",
+               input=dict(harness=fd["harness"], function=function, bytes=fd["input"], bytes_repr=repr(bytes(fd["input"])),
+                          real_result=fd.get("real_result")),
+               note="input replays on the real code: `./check %s --replay <this file>` re-runs it against the current tree" % pid)
+    with open(path, "w") as f:
+        json.dump(doc, f, indent=1)
+    return path
+
+
 def has_input(path):
     try:
         return bool(json.load(open(path)).get("input"))
@@ -41,6 +58,22 @@ def has_input(path):
 def replay(pid, path):
     import run as R
     doc = json.load(open(path))
+    inp = doc.get("input")
+    if isinstance(inp, dict) and inp.get("harness"):
+        # a concrete input found by the bounded companion: run it against the real code of the current tree
+        import kani as KN
+        data = inp.get("bytes") if inp.get("bytes") is not None else inp.get("input")
+        rr = KN.replay_file_cases([dict(harness=inp["harness"], input=data)])[0]
+        print("input %s on %s: real result %s" % (inp.get("bytes_repr"), inp.get("function"), rr["real_result"]))
+        if not rr["ran"]:
+            print("UNDECIDED replay did not run: %s" % rr["observed"][-300:])
+            return 2
+        if rr["confirmed"]:
+            print("VIOLATION property=%s replay=%s" % (pid, path))
+            return 1
+        if doc.get("kind") == "bounded-kani":
+            print("OK the stored input no longer fails on the current tree")
+            return 0
     unit, label = doc["obligation"].split("/", 1)
     r = R.verify_unit(unit, canary=False)
     if r.status == "undecided":
